@@ -81,6 +81,7 @@ func init() {
 		Explanation: "Decides the encoding clauses Length/SplitAt/Reverse/Split depend on, for every path: in every decoder loop of the package (incl. SplitAt, Reverse, Split, Length) a command cursor of one path only indexes that path's data; payload offsets stay inside the record of the command being decoded; every record built (incl. the ones Reverse emits) has the command at both ends and the format's length; cmdLen agrees with the format. NOT decided: quadrature, arc-length inversion, involution, winding negation.",
 		Run: func(c *core.Ctx, r *core.Report) {
 			E9ChordShortcut(c, r)
+			E11QuadratureCoversArc(c, r)
 			E3ArcShortcut(c, r)
 			E2CmdLenTable(c, r)
 			E2CursorDomain(c, r, nil)
@@ -168,6 +169,7 @@ func init() {
 			E5FreshRef(c, r)
 			E5ValueTypes(c, r)
 			E5StreamFilters(c, r)
+			E5FilterApplied(c, r)
 			E5StringEscape(c, r)
 			E5PageMemoFresh(c, r)
 			E5StreamLength(c, r)
@@ -191,6 +193,7 @@ func init() {
 			E6JoinerSupport(c, r)
 			E1VectorRenderPath(c, r)
 			E6ColorModelCompare(c, r)
+			E11GradientPad(c, r)
 			E6OutlineNonzero(c, r)
 			E5StitchingArity(c, r)
 			E6MemoIndependent(c, r)
@@ -245,6 +248,7 @@ func init() {
 		Assumptions: []string{"standard-library functions not in the mutator table are pure (listed in coverage.external_assumed)", "results of calls through function-typed parameters are fresh objects", "third-party Go dependencies are analysed from source, cgo is not"},
 		Run: func(c *core.Ctx, r *core.Report) {
 			E6SkipBoundsCover(c, r)
+			E11PixelLoopBounds(c, r)
 			E1Renderers(c, r)
 			E12Units(c, r)
 			E12ColorSpaceOnce(c, r)
